@@ -7,6 +7,7 @@ import (
 func init() { register("C08", c08v1) }
 
 func c08v1(g *Gen) {
+	defer c08boolRepeated(g)
 	validateUnicodeTables()
 	n := g.N(2500, 100000)
 	for i := 0; i < n; i++ {
@@ -31,6 +32,30 @@ func c08v1(g *Gen) {
 				g.Emit("C08.bool1", in, tag("err", c08errS(err)), append(cls, "bool-error")...)
 			} else {
 				g.Emit("C08.bool1", in, tag("ok", boolS(b)), cls...)
+			}
+		}
+	}
+}
+
+// c08boolRepeated: one key several times; the helper answers for the FIRST value, boolean or not
+func c08boolRepeated(g *Gen) {
+	for _, marker := range []string{"+", "+k8s:"} {
+		for _, firstV := range []string{"=blue", "", "=", "=TRUE", "=1", "=true", "=false"} {
+			for _, second := range []string{"=true", "=false", "=blue"} {
+				for _, def := range []bool{false, true} {
+					lines := []string{marker + "flag" + firstV, marker + "other=true", "plain text", marker + "flag" + second}
+					var b bool
+					var err error
+					in := list(atom(marker), atom("flag"), boolS(def), atoms(lines))
+					cls := []string{"tagline", "v1", "bool-one-key-several-times"}
+					if p, _ := catch(func() { b, err = types.ExtractSingleBoolCommentTag(marker, "flag", def, lines) }); p {
+						g.Emit("C08.bool1", in, tag("panic"), append(cls, "PANIC")...)
+					} else if err != nil {
+						g.Emit("C08.bool1", in, tag("err", c08errS(err)), append(cls, "bool-error")...)
+					} else {
+						g.Emit("C08.bool1", in, tag("ok", boolS(b)), cls...)
+					}
+				}
 			}
 		}
 	}
